@@ -53,6 +53,8 @@ def run(prog, R, tier="quick", only_rule=None):
     from rules.props import c02 as _c02
     _c02.c02f(prog, R, rid="C01.p")
     _c02.c02a(prog, R, rid="C01.q")
+    # a flush releases exactly the memtables it wrote: a memtable rotated in meanwhile keeps its (unflushed) writes visible
+    c06.c06d(prog, R, c06.LockFacts(prog, c06.CLASSES), rid="C01.r")
 
 
 def c01a(prog, R):
@@ -227,8 +229,10 @@ def c01e(prog, R, rid="C01.e"):
     # Writer::write registers once per distinct user key while the policy is active
     h = prog.hir.get("table::writer::Writer::write")
     sites = hir_sites(h["body"], lambda n: n.get("k") == "mcall" and n.get("m") == "register_key")
-    ok = bool(sites) and all("(std::option::Option::Some(&user_key) != self.current_key.as_ref())" in s.guard_texts()
-                             and "self.bloom_policy.is_active()" in s.guard_texts() for s in sites)
+    want = {"(std::option::Option::Some(&user_key) != self.current_key.as_ref())", "self.bloom_policy.is_active()"}
+    # exactly these two conditions: every distinct key goes into the filter whatever its value type (a tombstone - weak or
+    # not - that the filter does not know is skipped by point reads, and the value beneath it shows)
+    ok = bool(sites) and all(set(s.guard_texts()) == want for s in sites)
     r.check(ok, "table::writer::Writer::write|register_key(&user_key) once per distinct key when the policy is active",
             "keys are registered under another condition: written keys could be missing from the filter", "", str([s.guard_texts() for s in sites]))
     r.floor(4)
